@@ -35,4 +35,12 @@ def cLong (x : Int) : Int := cLL x
     including the `__int128` gcc gives to the literal 9223372036854775808). -/
 def cOr (a b : Int) : Int := ((BitVec.ofInt 128 a) ||| (BitVec.ofInt 128 b)).toInt
 
+
+instance exceptDecEq {ε α : Type} [DecidableEq ε] [DecidableEq α] : DecidableEq (Except ε α) := fun a b =>
+  match a, b with
+  | .ok x, .ok y => if h : x = y then isTrue (by rw [h]) else isFalse (fun h' => by cases h'; exact h rfl)
+  | .error x, .error y => if h : x = y then isTrue (by rw [h]) else isFalse (fun h' => by cases h'; exact h rfl)
+  | .ok _, .error _ => isFalse (fun h => by cases h)
+  | .error _, .ok _ => isFalse (fun h => by cases h)
+
 end CffiVerif.CheckIntOps
